@@ -231,6 +231,7 @@ func c10Spaces(c *fw.Ctx) {
 	c10PrecheckSpace(c)
 	c10FreshSpace(c)
 	c10ShortSpace(c)
+	c10AllKeysSpace(c)
 }
 
 // ---------------------------------------------------------------------------------------------
